@@ -6,6 +6,7 @@ import (
 	"encoding/hex"
 	"encoding/json"
 	"fmt"
+	"math/big"
 	"os"
 	"os/exec"
 	"path/filepath"
@@ -47,6 +48,9 @@ type c20Plan struct {
 	Goroutines int      `json:"goroutines"`
 	Perm       []int    `json:"permutation"`    // order in which the concurrent child starts the jobs
 	Prefix     []int    `json:"history_prefix"` // jobs the history child runs first (results discarded)
+	// SharedInput: jobs whose input bytes exist once in the concurrent child: the job itself and three more goroutines
+	// decode that one slice at the same time (an input is only read: sharing it between decoders is ordinary use)
+	SharedInput []int `json:"jobs_decoded_from_one_shared_slice,omitempty"`
 }
 
 // c20PlainVersion is an application's own structure that carries a protocol version as plain data (no set-version
@@ -117,13 +121,16 @@ func (e *c20Encoders) encode(which string, v any) []byte {
 }
 
 // c20Exec runs one job and returns the digest of everything it produced (or the error text).
-func c20Exec(j c20Job, e *c20Encoders) (digest string) {
+func c20Exec(j c20Job, e *c20Encoders, shared ...[]byte) (digest string) {
 	defer func() {
 		if r := recover(); r != nil {
 			digest = fmt.Sprintf("panic: %v", r)
 		}
 	}()
 	raw, _ := hex.DecodeString(j.Hex)
+	if len(shared) > 0 && shared[0] != nil {
+		raw = shared[0]
+	}
 	v := c20Fresh(j.Kind)
 	if err := ttlv.UnmarshalTTLV(raw, v); err != nil {
 		return "decode error: " + err.Error()
@@ -280,6 +287,22 @@ func TestC20Child(t *testing.T) {
 			work <- i
 		}
 		close(work)
+		sharedIn := map[int][]byte{}
+		extra := map[int][]string{}
+		for _, i := range p.SharedInput {
+			if i >= 0 && i < len(p.Jobs) && sharedIn[i] == nil {
+				sharedIn[i], _ = hex.DecodeString(p.Jobs[i].Hex)
+				extra[i] = make([]string, 3)
+				for k := 0; k < 3; k++ {
+					wg.Add(1)
+					go func(i, k int) {
+						defer wg.Done()
+						<-start
+						extra[i][k] = c20Exec(p.Jobs[i], &c20Encoders{}, sharedIn[i])
+					}(i, k)
+				}
+			}
+		}
 		for g := 0; g < p.Goroutines; g++ {
 			wg.Add(1)
 			go func() {
@@ -287,12 +310,22 @@ func TestC20Child(t *testing.T) {
 				e := &c20Encoders{}
 				<-start
 				for i := range work {
-					out[i] = c20Exec(p.Jobs[i], e)
+					out[i] = c20Exec(p.Jobs[i], e, sharedIn[i])
 				}
 			}()
 		}
 		close(start)
 		wg.Wait()
+		for i, in := range sharedIn {
+			if fresh, _ := hex.DecodeString(p.Jobs[i].Hex); !bytes.Equal(fresh, in) {
+				out[i] = "the shared input slice was modified by the decoders"
+			}
+			for k, d := range extra[i] {
+				if d != out[i] {
+					out[i] = fmt.Sprintf("decoders of one shared input disagree: %s vs %s (extra decoder %d)", out[i], d, k)
+				}
+			}
+		}
 	case "history":
 		e := &c20Encoders{reuse: true, bin: ttlv.NewTTLVEncoder(), xml: ttlv.NewXMLEncoder(), json: ttlv.NewJSONEncoder(), text: ttlv.NewTextEncoder(true)}
 		for _, i := range p.Prefix {
@@ -385,7 +418,7 @@ func tail(s string) string {
 func TestC20History(t *testing.T) {
 	const name = "TestC20History"
 	rec := evid.New("C20", name, "work lists of 2..14 encode/decode jobs (requests and responses of versions 1.0..1.4 and, one in five, of a foreign version 0.x/2.x/3.x, generic values, an application structure that carries a protocol version as plain data, header-less typed values - CryptographicParameters with later-version fields - of mixed versions, one job in three with its dates placed in UTC / fixed zones after decoding (one date in four repeating the instant of the previous one), and jobs whose calls fail: a request made unencodable by a negative interval, truncated documents) executed by three fresh child processes of the test binary: sequentially (reference), "+
-		"concurrently from a cold start with G in {2,8,32} goroutines released together in a drawn permutation, and on one reused, cleared encoder per encoding after a drawn prefix of unrelated jobs and in reverse order; "+
+		"concurrently from a cold start with G in {2,8,32} goroutines released together in a drawn permutation, the input bytes of some jobs (always those of a structure of long big integers of both signs) existing once and being decoded by four goroutines at the same time, and on one reused, cleared encoder per encoding after a drawn prefix of unrelated jobs and in reverse order; "+
 		"oracle: per-job digest of the four encodings and of the binary re-encoding after the XML and JSON round trips is identical across the children, every child's binary encoding equals the one the reference encoder predicts for the value alone, and in every child the XML and JSON documents of a typed message decode back to that binary encoding; the race-built variant additionally fails on any reported data race; "+
 		"non-trivial = the list holds messages of at least two different protocol versions or two different kinds; distinct by plan").Attach(t)
 	dir := t.TempDir()
@@ -484,6 +517,30 @@ func TestC20History(t *testing.T) {
 				j.Zones = rapid.SliceOfN(rapid.IntRange(0, 79), 1, 4).Draw(rt, "zones")
 			}
 			p.Jobs = append(p.Jobs, j)
+		}
+		if rapid.IntRange(0, 2).Draw(rt, "bigjob") != 2 {
+			// a generic structure of big integers of both signs, some of them long (decoding them takes long enough for
+			// concurrent decoders of one input to overlap); always decoded from one shared slice
+			tr := &ttlvref.Node{Tag: 0x540150, Type: ttlvref.Structure}
+			for k := rapid.IntRange(1, 3).Draw(rt, "nbig"); k > 0; k-- {
+				ln := rapid.SampledFrom([]int{8, 16, 264, 264, 4096, 4096, 32768}).Draw(rt, "biglen")
+				raw := make([]byte, ln)
+				fill := rapid.SliceOfN(rapid.Byte(), 8, 8).Draw(rt, "bigfill")
+				for x := range raw {
+					raw[x] = fill[x%8] + byte(x/8)
+				}
+				v := new(big.Int).SetBytes(raw)
+				if rapid.IntRange(0, 2).Draw(rt, "negative") != 0 {
+					v.Neg(v)
+				}
+				tr.Kids = append(tr.Kids, &ttlvref.Node{Tag: 0x540151, Type: ttlvref.BigInteger, Big: v})
+			}
+			p.Jobs = append(p.Jobs, c20Job{Kind: "value", Hex: hex.EncodeToString(ttlvref.Write(tr))})
+			p.SharedInput = append(p.SharedInput, len(p.Jobs)-1)
+			n = len(p.Jobs)
+		}
+		if n > 1 && rapid.Bool().Draw(rt, "moreshared") {
+			p.SharedInput = append(p.SharedInput, rapid.IntRange(0, n-1).Draw(rt, "sharedjob"))
 		}
 		p.Perm = rapid.Permutation(seq(n)).Draw(rt, "perm")
 		p.Prefix = rapid.SliceOfN(rapid.IntRange(0, n-1), 0, 4).Draw(rt, "prefix")
